@@ -12,6 +12,7 @@ namespace WinSpec
 inductive Ev where
   | arr (id : Nat) (ts : Option Int) (grp : Nat := 0)      -- a row was ingested (`none`: no usable timestamp); `grp` = its GROUP BY key
   | emit (late : Bool) (start stop : Int) (ids : List Nat) (grp : Nat := 0) -- a result (of group `grp`) was delivered (late = re-delivery caused by a late row)
+  | idle (now : Int)   -- a ticker update found the source idle (IDLETIMEOUT elapsed) at wall-clock reading `now`
   deriving Repr, DecidableEq
 
 structure Cfg where
@@ -36,6 +37,7 @@ structure Seen where
 structure Scan where
   seen : List Seen := []
   maxTs : Option Int := none          -- largest valid timestamp seen so far
+  floor : Option Int := none          -- the watermark an idle ticker update set from the wall clock (largest so far)
   firsts : List (Int × Int × List Nat) := []   -- delivered intervals so far (start, stop, current ids), in order (all groups)
   firstGrp : List Nat := []                    -- group of each entry of `firsts`
   expect : List (Int × Int × Nat) := []        -- a late row inside the allowance of delivered intervals: the next events must be their re-deliveries (start, stop, id), in interval order
@@ -44,19 +46,27 @@ structure Scan where
 
 def alignDown (t m : Int) : Int := (Int.tdiv t m) * m
 
-def wmOf (c : Cfg) (s : Scan) : Option Int := s.maxTs.map (· - c.ooo)
-
 def maxOpt (o : Option Int) (x : Int) : Int := match o with | none => x | some y => if y < x then x else y
+
+/-- the watermark: largest valid timestamp − tolerance, or what an idle ticker update set, whichever is larger -/
+def wmOf (c : Cfg) (s : Scan) : Option Int := s.maxTs.map (fun m => maxOpt s.floor (m - c.ooo))
+
+/-- an idle ticker update: no effect before the first valid event -/
+def stepIdle (c : Cfg) (s : Scan) (now : Int) : Scan :=
+  match s.maxTs with
+  | none => s
+  | some _ => { s with floor := some (maxOpt s.floor (now - c.ooo)) }
 
 def fail (s : Scan) (m : String) : Scan := if s.err.isSome then s else { s with err := some m }
 
 def stepArr (c : Cfg) (s : Scan) (id : Nat) (ts : Int) (g : Nat := 0) : Scan :=
   if c.now + c.ooo + c.slack < ts then
-    { s with seen := s.seen ++ [{ id := id, ts := ts, onTime := true, corrupt := true, wmAtArrival := s.maxTs.map (· - c.ooo), grp := g }] }
+    { s with seen := s.seen ++ [{ id := id, ts := ts, onTime := true, corrupt := true, wmAtArrival := wmOf c s, grp := g }] }
   else
+    let w := maxOpt s.floor (maxOpt s.maxTs ts - c.ooo)
     { s with maxTs := some (maxOpt s.maxTs ts),
-             seen := s.seen ++ [{ id := id, ts := ts, onTime := decide (maxOpt s.maxTs ts - c.ooo ≤ ts), corrupt := false,
-                                  wmAtArrival := some (maxOpt s.maxTs ts - c.ooo), grp := g }] }
+             seen := s.seen ++ [{ id := id, ts := ts, onTime := decide (w ≤ ts), corrupt := false,
+                                  wmAtArrival := some w, grp := g }] }
 
 def lookup (s : Scan) (id : Nat) : Option Seen := s.seen.find? (·.id = id)
 
@@ -135,6 +145,7 @@ def stepCore (c : Cfg) (s : Scan) : Ev → Scan
     { s1 with expect := expectation c s1 id ts }
   | .emit false a b ids g => checkFirst c s a b ids g
   | .emit true a b ids _ => checkLate c s a b ids
+  | .idle now => stepIdle c s now
 
 def step (c : Cfg) (s : Scan) (e : Ev) : Scan :=
   match s.expect with
